@@ -1,4 +1,5 @@
 import Driver.Proto
 import Driver.OpsTime
 import Driver.OpsBattery
+import Driver.OpsFail
 import Driver.Main
